@@ -10,11 +10,11 @@ package c18
 
 import (
 	"fmt"
+	"os"
 	"runtime"
 	"runtime/debug"
 	"strings"
 	"sync/atomic"
-	"syscall"
 	"time"
 
 	"github.com/johnkerl/miller/v6/pkg/cli"
@@ -96,7 +96,7 @@ func buildDirect(text string) (built bool, perr any, stack string) {
 const dslStdin = "x=3,y=abc\nx=,z=0.5\n"
 
 func dslWorker(w *vf.Worker) {
-	x := newRunner(w)
+	x := newRunner(w, 4, 6*time.Second)
 	var idx uint64
 	type alpha struct {
 		name string
@@ -121,68 +121,63 @@ func dslWorker(w *vf.Worker) {
 	for _, a := range alphas {
 		k := len(a.toks)
 		total := countUpTo(k, a.L)
-		const block = 2048
-		for start := uint64(0); start < total; start += block {
+		hits := make([]int64, k)
+		var nBuilt, nSkipped, nRun int64
+		for n := uint64(0); n < total; n++ {
 			idx++
 			if !w.Mine(idx) {
 				continue
 			}
 			w.Begin(idx)
-			end := start + block
-			if end > total {
-				end = total
+			buf = nth(k, n, buf)
+			seq = seq[:0]
+			for _, s := range buf {
+				seq = append(seq, a.toks[s])
+				hits[s]++
 			}
-			hits := make([]int64, k)
-			var nBuilt, nParsedOnly, nSkipped int64
-			for n := start; n < end; n++ {
-				buf = nth(k, n, buf)
-				seq = seq[:0]
-				for _, s := range buf {
-					seq = append(seq, a.toks[s])
-					hits[s]++
-				}
-				if a.name == "chunks" && recursive(seq) {
-					nSkipped++
-					continue
-				}
-				text := strings.Join(seq, a.sep)
-				m := &mcase{Fam: "dsl", Cfg: a.name, Size: len(buf), Desc: "`" + vis(text) + "`", Args: []string{"--ojson", "put", text}, Stdin: dslStdin}
-				if x.only {
-					x.w.Label(m.label)
-				}
-				built, perr, stack := buildDirect(text)
-				w.Eval(1)
+			if a.name == "chunks" && recursive(seq) {
+				nSkipped++
+				continue
+			}
+			nRun++
+			text := strings.Join(seq, a.sep)
+			m := &mcase{Fam: "dsl", Cfg: a.name, Size: len(buf), Desc: "`" + vis(text) + "`", Args: []string{"--ojson", "put", text}, Stdin: dslStdin}
+			if x.only {
+				x.w.Label(m.label)
+			}
+			built, perr, stack := buildDirect(text)
+			w.Eval(1)
+			if nRun%16 == 0 {
 				vf.TakeStderr()
-				if perr != nil {
-					// re-run through the CLI so that the standard oracle, reproducer and plain-binary confirmation apply
-					oc := x.run(m)
-					if oc.class != ocPanic {
-						w.Violation("panic-direct-build["+strings.ReplaceAll(panicSite(stack), ":", "#")+"]:"+m.keyTail(),
-							fmt.Sprintf("cst.RootNode.Build panics (%v) on %s but `mlr put` does not", perr, m.Desc), map[string]any{"text": text, "stack": short(stack, 2000)})
-					}
-					w.AddSet("dsl-outcomes", a.name+":"+ocPanic)
-					continue
-				}
-				if !built {
-					w.AddSet("dsl-outcomes", a.name+":rejected-at-parse-or-build")
-					continue
-				}
-				nBuilt++
-				w.Nontrivial(1)
+			}
+			if perr != nil {
+				// re-run through the CLI so that the standard oracle, reproducer and plain-binary confirmation apply
 				oc := x.run(m)
-				w.AddSet("dsl-outcomes", a.name+":built:"+oc.class)
-				if oc.class == ocBareErr || oc.class == ocSilentNZ {
-					w.AddSet("bare-error-texts", "dsl: "+short(strings.TrimSpace(firstLines(oc.stderr, 1)), 100))
+				if oc.class != ocPanic {
+					w.Violation("panic-direct-build["+strings.ReplaceAll(panicSite(stack), ":", "#")+"]:"+m.keyTail(),
+						fmt.Sprintf("cst.RootNode.Build panics (%v) on %s but `mlr put` does not", perr, m.Desc), map[string]any{"text": text, "stack": short(stack, 2000)})
 				}
-				_ = nParsedOnly
+				w.AddSet("dsl-outcomes", a.name+":"+ocPanic)
+				continue
 			}
-			w.Heartbeat()
-			w.Count("cases:dsl:"+a.name, int64(end-start)-nSkipped)
-			w.Count("dsl-built-and-executed:"+a.name, nBuilt)
-			w.Count("dsl-skipped-unbounded-recursion", nSkipped)
-			for s, h := range hits {
-				w.Count("tok:"+a.name+":"+vis(a.toks[s]), h)
+			if !built {
+				w.AddSet("dsl-outcomes", a.name+":rejected-at-parse-or-build")
+				continue
 			}
+			nBuilt++
+			w.Nontrivial(1)
+			vf.TakeStderr()
+			oc := x.run(m)
+			w.AddSet("dsl-outcomes", a.name+":built:"+oc.class)
+			if oc.class == ocBareErr || oc.class == ocSilentNZ {
+				w.AddSet("bare-error-texts", "dsl: "+short(strings.TrimSpace(firstLines(oc.stderr, 1)), 100))
+			}
+		}
+		w.Count("cases:dsl:"+a.name, nRun)
+		w.Count("dsl-built-and-executed:"+a.name, nBuilt)
+		w.Count("dsl-skipped-unbounded-recursion", nSkipped)
+		for s, h := range hits {
+			w.Count("tok:"+a.name+":"+vis(a.toks[s]), h)
 		}
 	}
 	if w.Shard == 0 {
@@ -193,9 +188,64 @@ func dslWorker(w *vf.Worker) {
 // ---------------------------------------------------------------- ladders
 
 type ladder struct {
-	name  string
-	max   int // largest depth at which the shape is generated (quadratic-size shapes stop early)
-	build func(d int) (args []string, stdin string)
+	name   string
+	max    int // largest depth at which the shape is generated (quadratic-size shapes stop early)
+	build  func(d int) (args []string, stdin string)
+	depths []int // when set: these sizes instead of the tier's powers of ten
+}
+
+// sizes around every boundary of the number scanners: 18/19/20 decimal digits, 15/16/17 hex digits, 63/64/65
+// binary digits, 21/22 octal digits, exponents 308/309/310 and 323/324/325
+var lexemeSizes = func() []int {
+	var l []int
+	for i := 1; i <= 26; i++ {
+		l = append(l, i)
+	}
+	return append(l, 30, 40, 62, 63, 64, 65, 66, 100, 307, 308, 309, 310, 323, 324, 325, 400, 1000, 5000)
+}()
+
+func lexemeLadders() []ladder {
+	arith := `$p = $x + 1; $m = $x * $x; $d = $x .+ 1; $n = -$x; $s = $x . ""; $b = $x & 1; $q = $x // 3; $f = fmtnum($x, "%d"); $h = hexfmt($x); $t = typeof($x); $i = int($x); $l = $x << 1`
+	dsl := func(name string, lit func(d int) string) ladder {
+		return ladder{name: name, max: 5000, depths: lexemeSizes, build: func(d int) ([]string, string) {
+			l := lit(d)
+			return endProg("x = " + l + "; print typeof(x); print x; print x + 1; print -x; print x * x; print x . \"\"; print fmtnum(x, \"%d\"); print x // 3; print x & 1"), ""
+		}}
+	}
+	data := func(name string, flags []string, lit func(d int) string) ladder {
+		return ladder{name: name, max: 5000, depths: lexemeSizes, build: func(d int) ([]string, string) {
+			return append(append([]string{}, flags...), "--ojson", "put", arith), "x=" + lit(d) + "\n"
+		}}
+	}
+	var out []ladder
+	lits := []struct {
+		name string
+		f    func(d int) string
+	}{
+		{"int-9s", func(d int) string { return rep("9", d) }},
+		{"int-1-0s", func(d int) string { return "1" + rep("0", d) }},
+		{"int-leading-0s", func(d int) string { return rep("0", d) + "7" }},
+		{"hex-fs", func(d int) string { return "0x" + rep("f", d) }},
+		{"hex-8-0s", func(d int) string { return "0x8" + rep("0", d) }},
+		{"hex-1-fs", func(d int) string { return "0x1" + rep("f", d) }},
+		{"bin-1s", func(d int) string { return "0b" + rep("1", d) }},
+		{"oct-7s", func(d int) string { return "0o" + rep("7", d) }},
+		{"float-exp", func(d int) string { return fmt.Sprintf("1e%d", d) }},
+		{"float-negexp", func(d int) string { return fmt.Sprintf("1e-%d", d) }},
+		{"float-frac-digits", func(d int) string { return "0." + rep("3", d) }},
+		{"float-int-digits", func(d int) string { return rep("9", d) + ".5" }},
+		{"float-dot-exp", func(d int) string { return fmt.Sprintf(".%se+%d", rep("1", 1+d%7), d) }},
+	}
+	for _, l := range lits {
+		l := l
+		out = append(out, dsl("lexeme-dsl-"+l.name, l.f))
+		out = append(out, dsl("lexeme-dsl-neg-"+l.name, func(d int) string { return "-" + l.f(d) }))
+		out = append(out, data("lexeme-data-"+l.name, nil, l.f))
+		out = append(out, data("lexeme-data-neg-"+l.name, nil, func(d int) string { return "-" + l.f(d) }))
+		out = append(out, data("lexeme-data-octal-flag-"+l.name, []string{"-O"}, l.f))
+		out = append(out, data("lexeme-data-int-as-float-"+l.name, []string{"-A"}, l.f))
+	}
+	return out
 }
 
 func rep(s string, n int) string { return strings.Repeat(s, n) }
@@ -203,11 +253,24 @@ func rep(s string, n int) string { return strings.Repeat(s, n) }
 func endProg(body string) []string { return []string{"-n", "put", "end{" + body + "}"} }
 
 func ladders() []ladder {
+	return append(structuralLadders(), lexemeLadders()...)
+}
+
+func structuralLadders() []ladder {
 	big := 1000000
-	L := []ladder{
+	type ladder3 struct {
+		name  string
+		max   int
+		build func(d int) (args []string, stdin string)
+	}
+	L := []ladder3{
 		// ---- DSL expression nesting
-		{"dsl-parens", big, func(d int) ([]string, string) { return endProg("x = " + rep("(", d) + "1" + rep(")", d) + "; print x"), "" }},
-		{"dsl-array-literal", big, func(d int) ([]string, string) { return endProg("x = " + rep("[", d) + "1" + rep("]", d) + "; print depth(x)"), "" }},
+		{"dsl-parens", big, func(d int) ([]string, string) {
+			return endProg("x = " + rep("(", d) + "1" + rep(")", d) + "; print x"), ""
+		}},
+		{"dsl-array-literal", big, func(d int) ([]string, string) {
+			return endProg("x = " + rep("[", d) + "1" + rep("]", d) + "; print depth(x)"), ""
+		}},
 		{"dsl-map-literal", big, func(d int) ([]string, string) {
 			return endProg("x = " + rep(`{"a":`, d) + "1" + rep("}", d) + "; print depth(x)"), ""
 		}},
@@ -215,7 +278,9 @@ func ladders() []ladder {
 		{"dsl-unary-minus-nospace", big, func(d int) ([]string, string) { return endProg("x = " + rep("-", d) + "1; print x"), "" }},
 		{"dsl-not", big, func(d int) ([]string, string) { return endProg("x = " + rep("!", d) + "true; print x"), "" }},
 		{"dsl-bitnot", big, func(d int) ([]string, string) { return endProg("x = " + rep("~", d) + "1; print x"), "" }},
-		{"dsl-function-nest", big, func(d int) ([]string, string) { return endProg("x = " + rep("abs(", d) + "1" + rep(")", d) + "; print x"), "" }},
+		{"dsl-function-nest", big, func(d int) ([]string, string) {
+			return endProg("x = " + rep("abs(", d) + "1" + rep(")", d) + "; print x"), ""
+		}},
 		{"dsl-plus-chain", big, func(d int) ([]string, string) { return endProg("x = 1" + rep("+1", d) + "; print x"), "" }},
 		{"dsl-pow-chain", big, func(d int) ([]string, string) { return endProg("x = 1" + rep("**1", d) + "; print x"), "" }},
 		{"dsl-dot-chain", big, func(d int) ([]string, string) { return endProg(`x = "a"` + rep(`."a"`, d) + "; print strlen(x)"), "" }},
@@ -227,12 +292,20 @@ func ladders() []ladder {
 		{"dsl-index-assign-dump", 100000, func(d int) ([]string, string) { return endProg("@y" + rep(`["k"]`, d) + " = 1; dump"), "" }},
 		// ---- statement nesting / length
 		{"dsl-if-nest", big, func(d int) ([]string, string) { return endProg(rep("if (true) {", d) + "print 1" + rep("}", d)), "" }},
-		{"dsl-elif-chain", big, func(d int) ([]string, string) { return endProg("if (false) {}" + rep(" elif (false) {}", d) + " else {print 1}"), "" }},
-		{"dsl-for-nest", big, func(d int) ([]string, string) { return endProg(rep("for (e in [1]) {", d) + "print 1" + rep("}", d)), "" }},
-		{"dsl-while-nest", big, func(d int) ([]string, string) { return endProg(rep("while (true) {", d) + "print 1;" + rep("break}", d)), "" }},
+		{"dsl-elif-chain", big, func(d int) ([]string, string) {
+			return endProg("if (false) {}" + rep(" elif (false) {}", d) + " else {print 1}"), ""
+		}},
+		{"dsl-for-nest", big, func(d int) ([]string, string) {
+			return endProg(rep("for (e in [1]) {", d) + "print 1" + rep("}", d)), ""
+		}},
+		{"dsl-while-nest", big, func(d int) ([]string, string) {
+			return endProg(rep("while (true) {", d) + "print 1;" + rep("break}", d)), ""
+		}},
 		{"dsl-statements", big, func(d int) ([]string, string) { return endProg(rep("x=1;", d) + "print x"), "" }},
 		{"dsl-semicolons", big, func(d int) ([]string, string) { return endProg(rep(";", d)), "" }},
-		{"dsl-begin-blocks", big, func(d int) ([]string, string) { return []string{"-n", "put", rep("begin{@c[1]=1}", d) + "end{print @c[1]}"}, "" }},
+		{"dsl-begin-blocks", big, func(d int) ([]string, string) {
+			return []string{"-n", "put", rep("begin{@c[1]=1}", d) + "end{print @c[1]}"}, ""
+		}},
 		{"dsl-udfs", 100000, func(d int) ([]string, string) {
 			var sb strings.Builder
 			for i := 0; i < d; i++ {
@@ -262,7 +335,9 @@ func ladders() []ladder {
 		{"dsl-long-string-literal", big, func(d int) ([]string, string) { return endProg(`x = "` + rep("a", d*10) + `"; print strlen(x)`), "" }},
 		{"dsl-long-int-literal", big, func(d int) ([]string, string) { return endProg("x = " + rep("7", d) + "; print typeof(x)"), "" }},
 		{"dsl-long-hex-literal", big, func(d int) ([]string, string) { return endProg("x = 0x" + rep("f", d) + "; print typeof(x)"), "" }},
-		{"dsl-long-float-literal", big, func(d int) ([]string, string) { return endProg("x = 0." + rep("3", d) + "e" + rep("9", 1+d/1000) + "; print typeof(x)"), "" }},
+		{"dsl-long-float-literal", big, func(d int) ([]string, string) {
+			return endProg("x = 0." + rep("3", d) + "e" + rep("9", 1+d/1000) + "; print typeof(x)"), ""
+		}},
 		{"dsl-long-identifier", big, func(d int) ([]string, string) { return endProg(rep("v", d) + " = 1; print " + rep("v", d)), "" }},
 		{"dsl-long-field-name", big, func(d int) ([]string, string) { return []string{"put", "${" + rep("k", d) + "} = $x"}, "x=1\n" }},
 		{"dsl-long-comment", big, func(d int) ([]string, string) { return endProg("x = 1; # " + rep("c", d*10) + "\nprint x"), "" }},
@@ -276,37 +351,79 @@ func ladders() []ladder {
 			return endProg("x = {" + sb.String() + `"z":1}; print length(x)`), ""
 		}},
 		{"dsl-backslashes", big, func(d int) ([]string, string) { return endProg(`x = "` + rep(`\\`, d) + `"; print strlen(x)`), "" }},
-		{"dsl-regex-nest", big, func(d int) ([]string, string) { return endProg(`print "a" =~ "` + rep("(", d) + "a" + rep(")", d) + `"`), "" }},
-		{"dsl-regex-repeat", 1000, func(d int) ([]string, string) { return endProg(`print sub("aaa", "` + rep("(a{1,1000})", d) + `", "b")`), "" }},
+		{"dsl-regex-nest", big, func(d int) ([]string, string) {
+			return endProg(`print "a" =~ "` + rep("(", d) + "a" + rep(")", d) + `"`), ""
+		}},
+		{"dsl-regex-repeat", 1000, func(d int) ([]string, string) {
+			return endProg(`print sub("aaa", "` + rep("(a{1,1000})", d) + `", "b")`), ""
+		}},
 		{"dsl-regex-captures", big, func(d int) ([]string, string) {
 			return endProg(`if ("` + rep("a", d) + `" =~ "` + rep("(a)", d) + `") {print "\1\9"}`), ""
 		}},
-		{"dsl-gsub-empty-regex", big, func(d int) ([]string, string) { return endProg(`print strlen(gsub("` + rep("a", d) + `", "", "x"))`), "" }},
+		{"dsl-gsub-empty-regex", big, func(d int) ([]string, string) {
+			return endProg(`print strlen(gsub("` + rep("a", d) + `", "", "x"))`), ""
+		}},
 		{"dsl-format-values-wide", 100000, func(d int) ([]string, string) { return endProg(`print strlen(format("` + rep("{}", d) + `", 1))`), "" }},
-		{"dsl-strrepeat-like", 1000, func(d int) ([]string, string) { return endProg(fmt.Sprintf(`print strlen(leftpad("a", %d, "x"))`, d*1000)), "" }},
-		{"dsl-json-decode-nest", big, func(d int) ([]string, string) { return endProg(`print depth(json_decode("` + rep("[", d) + rep("]", d) + `"))`), "" }},
-		{"dsl-splitax-wide", big, func(d int) ([]string, string) { return endProg(`print length(splitax("` + rep("a,", d) + `", ","))`), "" }},
+		{"dsl-strrepeat-like", 1000, func(d int) ([]string, string) {
+			return endProg(fmt.Sprintf(`print strlen(leftpad("a", %d, "x"))`, d*1000)), ""
+		}},
+		{"dsl-json-parse-nest", big, func(d int) ([]string, string) {
+			return endProg(`print depth(json_parse("` + rep("[", d) + rep("]", d) + `"))`), ""
+		}},
+		{"dsl-splitax-wide", big, func(d int) ([]string, string) {
+			return endProg(`print length(splitax("` + rep("a,", d) + `", ","))`), ""
+		}},
 		// ---- readers: nesting and size
-		{"json-array-nest", big, func(d int) ([]string, string) { return []string{"--ijson", "--ojsonl", "cat"}, `{"a":` + rep("[", d) + "1" + rep("]", d) + "}" }},
-		{"json-map-nest", big, func(d int) ([]string, string) { return []string{"--ijson", "--ojsonl", "cat"}, rep(`{"a":`, d) + "1" + rep("}", d) }},
+		{"json-array-nest", big, func(d int) ([]string, string) {
+			return []string{"--ijson", "--ojsonl", "cat"}, `{"a":` + rep("[", d) + "1" + rep("]", d) + "}"
+		}},
+		{"json-map-nest", big, func(d int) ([]string, string) {
+			return []string{"--ijson", "--ojsonl", "cat"}, rep(`{"a":`, d) + "1" + rep("}", d)
+		}},
 		{"json-array-unclosed", big, func(d int) ([]string, string) { return []string{"--ijson", "--ojsonl", "cat"}, `{"a":` + rep("[", d) }},
 		{"json-map-unclosed", big, func(d int) ([]string, string) { return []string{"--ijson", "--ojsonl", "cat"}, rep(`{"a":`, d) }},
-		{"json-writer-multiline-array-nest", big, func(d int) ([]string, string) { return []string{"--ijson", "--ojson", "cat"}, `{"a":` + rep("[", d) + "1" + rep("]", d) + "}" }},
-		{"json-writer-multiline-map-nest", big, func(d int) ([]string, string) { return []string{"--ijson", "--ojson", "cat"}, rep(`{"a":`, d) + "1" + rep("}", d) }},
-		{"json-reader-only-array-nest", 10000000, func(d int) ([]string, string) { return []string{"--ijson", "--ojson", "nothing"}, `{"a":` + rep("[", d) + "1" + rep("]", d) + "}" }},
-		{"json-reader-only-map-nest", 10000000, func(d int) ([]string, string) { return []string{"--ijson", "--ojson", "nothing"}, rep(`{"a":`, d) + "1" + rep("}", d) }},
-		{"yaml-reader-only-flow-nest", 10000000, func(d int) ([]string, string) { return []string{"--iyaml", "--ojson", "nothing"}, "a: " + rep("[", d) + "1" + rep("]", d) + "\n" }},
-		{"json-top-array-nest", big, func(d int) ([]string, string) { return []string{"--ijson", "--ojsonl", "cat"}, rep("[", d) + rep("]", d) }},
-		{"json-closers-only", big, func(d int) ([]string, string) { return []string{"--ijson", "--ojsonl", "cat"}, rep("]", d) + rep("}", d) }},
-		{"json-map-nest-to-csv", big, func(d int) ([]string, string) { return []string{"--ijson", "--ocsv", "cat"}, rep(`{"a":`, d) + "1" + rep("}", d) }},
-		{"json-map-nest-to-xtab", 100000, func(d int) ([]string, string) { return []string{"--ijson", "--oxtab", "cat"}, rep(`{"a":`, d) + "1" + rep("}", d) }},
+		{"json-writer-multiline-array-nest", big, func(d int) ([]string, string) {
+			return []string{"--ijson", "--ojson", "cat"}, `{"a":` + rep("[", d) + "1" + rep("]", d) + "}"
+		}},
+		{"json-writer-multiline-map-nest", big, func(d int) ([]string, string) {
+			return []string{"--ijson", "--ojson", "cat"}, rep(`{"a":`, d) + "1" + rep("}", d)
+		}},
+		{"json-reader-only-array-nest", 10000000, func(d int) ([]string, string) {
+			return []string{"--ijson", "--ojson", "nothing"}, `{"a":` + rep("[", d) + "1" + rep("]", d) + "}"
+		}},
+		{"json-reader-only-map-nest", 10000000, func(d int) ([]string, string) {
+			return []string{"--ijson", "--ojson", "nothing"}, rep(`{"a":`, d) + "1" + rep("}", d)
+		}},
+		{"yaml-reader-only-flow-nest", 10000000, func(d int) ([]string, string) {
+			return []string{"--iyaml", "--ojson", "nothing"}, "a: " + rep("[", d) + "1" + rep("]", d) + "\n"
+		}},
+		{"json-top-array-nest", big, func(d int) ([]string, string) {
+			return []string{"--ijson", "--ojsonl", "cat"}, rep("[", d) + rep("]", d)
+		}},
+		{"json-closers-only", big, func(d int) ([]string, string) {
+			return []string{"--ijson", "--ojsonl", "cat"}, rep("]", d) + rep("}", d)
+		}},
+		{"json-map-nest-to-csv", big, func(d int) ([]string, string) {
+			return []string{"--ijson", "--ocsv", "cat"}, rep(`{"a":`, d) + "1" + rep("}", d)
+		}},
+		{"json-map-nest-to-xtab", 100000, func(d int) ([]string, string) {
+			return []string{"--ijson", "--oxtab", "cat"}, rep(`{"a":`, d) + "1" + rep("}", d)
+		}},
 		{"json-array-nest-to-pprint", 100000, func(d int) ([]string, string) {
 			return []string{"--ijson", "--opprint", "cat"}, `{"a":` + rep("[", d) + "1" + rep("]", d) + "}"
 		}},
-		{"json-long-string", big, func(d int) ([]string, string) { return []string{"--ijson", "--ojsonl", "cat"}, `{"a":"` + rep("s", d*10) + `"}` }},
-		{"json-long-key", big, func(d int) ([]string, string) { return []string{"--ijson", "--ojsonl", "cat"}, `{"` + rep("k", d*10) + `":1}` }},
-		{"json-long-number", big, func(d int) ([]string, string) { return []string{"--ijson", "--ojsonl", "cat"}, `{"a":` + rep("7", d) + `}` }},
-		{"json-long-escapes", big, func(d int) ([]string, string) { return []string{"--ijson", "--ojsonl", "cat"}, `{"a":"` + rep(`\u00e9\\`, d) + `"}` }},
+		{"json-long-string", big, func(d int) ([]string, string) {
+			return []string{"--ijson", "--ojsonl", "cat"}, `{"a":"` + rep("s", d*10) + `"}`
+		}},
+		{"json-long-key", big, func(d int) ([]string, string) {
+			return []string{"--ijson", "--ojsonl", "cat"}, `{"` + rep("k", d*10) + `":1}`
+		}},
+		{"json-long-number", big, func(d int) ([]string, string) {
+			return []string{"--ijson", "--ojsonl", "cat"}, `{"a":` + rep("7", d) + `}`
+		}},
+		{"json-long-escapes", big, func(d int) ([]string, string) {
+			return []string{"--ijson", "--ojsonl", "cat"}, `{"a":"` + rep(`\u00e9\\`, d) + `"}`
+		}},
 		{"json-many-records", big, func(d int) ([]string, string) { return []string{"--ijson", "--ojson", "tac"}, rep(`{"a":1}`, d) }},
 		{"json-many-keys", 100000, func(d int) ([]string, string) {
 			var sb strings.Builder
@@ -317,13 +434,27 @@ func ladders() []ladder {
 			sb.WriteString(`"z":0}`)
 			return []string{"--ijson", "--ojsonl", "cat"}, sb.String()
 		}},
-		{"json-many-dup-keys", 100000, func(d int) ([]string, string) { return []string{"--ijson", "--ojsonl", "cat"}, "{" + rep(`"a":1,`, d) + `"a":2}` }},
-		{"json-whitespace", big, func(d int) ([]string, string) { return []string{"--ijson", "--ojsonl", "cat"}, rep(" \n\t", d) + `{"a":1}` + rep(" ", d) }},
-		{"jsonl-long-line", big, func(d int) ([]string, string) { return []string{"--ijsonl", "--ojsonl", "cat"}, `{"a":"` + rep("s", d*10) + `"}` + "\n" }},
-		{"yaml-flow-nest", big, func(d int) ([]string, string) { return []string{"--iyaml", "--ojsonl", "cat"}, "a: " + rep("[", d) + "1" + rep("]", d) + "\n" }},
-		{"yaml-flow-map-nest", big, func(d int) ([]string, string) { return []string{"--iyaml", "--ojsonl", "cat"}, rep("{a: ", d) + "1" + rep("}", d) + "\n" }},
-		{"yaml-flow-unclosed", big, func(d int) ([]string, string) { return []string{"--iyaml", "--ojsonl", "cat"}, "a: " + rep("[", d) + "\n" }},
-		{"yaml-dash-nest", big, func(d int) ([]string, string) { return []string{"--iyaml", "--ojsonl", "cat"}, "a:\n  " + rep("- ", d) + "1\n" }},
+		{"json-many-dup-keys", 100000, func(d int) ([]string, string) {
+			return []string{"--ijson", "--ojsonl", "cat"}, "{" + rep(`"a":1,`, d) + `"a":2}`
+		}},
+		{"json-whitespace", big, func(d int) ([]string, string) {
+			return []string{"--ijson", "--ojsonl", "cat"}, rep(" \n\t", d) + `{"a":1}` + rep(" ", d)
+		}},
+		{"jsonl-long-line", big, func(d int) ([]string, string) {
+			return []string{"--ijsonl", "--ojsonl", "cat"}, `{"a":"` + rep("s", d*10) + `"}` + "\n"
+		}},
+		{"yaml-flow-nest", big, func(d int) ([]string, string) {
+			return []string{"--iyaml", "--ojsonl", "cat"}, "a: " + rep("[", d) + "1" + rep("]", d) + "\n"
+		}},
+		{"yaml-flow-map-nest", big, func(d int) ([]string, string) {
+			return []string{"--iyaml", "--ojsonl", "cat"}, rep("{a: ", d) + "1" + rep("}", d) + "\n"
+		}},
+		{"yaml-flow-unclosed", big, func(d int) ([]string, string) {
+			return []string{"--iyaml", "--ojsonl", "cat"}, "a: " + rep("[", d) + "\n"
+		}},
+		{"yaml-dash-nest", big, func(d int) ([]string, string) {
+			return []string{"--iyaml", "--ojsonl", "cat"}, "a:\n  " + rep("- ", d) + "1\n"
+		}},
 		{"yaml-block-nest", 1000, func(d int) ([]string, string) {
 			var sb strings.Builder
 			for i := 0; i < d; i++ {
@@ -332,7 +463,7 @@ func ladders() []ladder {
 			sb.WriteString(rep(" ", d) + "b: 1\n")
 			return []string{"--iyaml", "--ojsonl", "cat"}, sb.String()
 		}},
-		{"yaml-alias-doubling", 24, func(d int) ([]string, string) {
+		{"yaml-alias-doubling", 30, func(d int) ([]string, string) {
 			// each level references the previous one twice: 2^d leaves from a d-line document
 			var sb strings.Builder
 			sb.WriteString("a0: &a0 [x, x]\n")
@@ -342,10 +473,18 @@ func ladders() []ladder {
 			return []string{"--iyaml", "--ojson", "put", "-q", `end{print "done"}`}, sb.String()
 		}},
 		{"yaml-many-docs", 100000, func(d int) ([]string, string) { return []string{"--iyaml", "--ojson", "tac"}, rep("---\na: 1\n", d) }},
-		{"yaml-long-scalar", big, func(d int) ([]string, string) { return []string{"--iyaml", "--ojsonl", "cat"}, "a: " + rep("s", d*10) + "\n" }},
-		{"csv-long-quoted-field", big, func(d int) ([]string, string) { return []string{"--icsv", "--ojsonl", "cat"}, "a\n\"" + rep("x", d*10) + "\"\n" }},
-		{"csv-long-unquoted-line", big, func(d int) ([]string, string) { return []string{"--icsv", "--ojsonl", "cat"}, "a\n" + rep("x", d*10) + "\n" }},
-		{"csv-unterminated-quote", big, func(d int) ([]string, string) { return []string{"--icsv", "--ojsonl", "cat"}, "a\n\"" + rep("x\n", d*5) }},
+		{"yaml-long-scalar", big, func(d int) ([]string, string) {
+			return []string{"--iyaml", "--ojsonl", "cat"}, "a: " + rep("s", d*10) + "\n"
+		}},
+		{"csv-long-quoted-field", big, func(d int) ([]string, string) {
+			return []string{"--icsv", "--ojsonl", "cat"}, "a\n\"" + rep("x", d*10) + "\"\n"
+		}},
+		{"csv-long-unquoted-line", big, func(d int) ([]string, string) {
+			return []string{"--icsv", "--ojsonl", "cat"}, "a\n" + rep("x", d*10) + "\n"
+		}},
+		{"csv-unterminated-quote", big, func(d int) ([]string, string) {
+			return []string{"--icsv", "--ojsonl", "cat"}, "a\n\"" + rep("x\n", d*5)
+		}},
 		{"csv-many-columns", 100000, func(d int) ([]string, string) {
 			var h, r strings.Builder
 			for i := 0; i < d; i++ {
@@ -354,10 +493,18 @@ func ladders() []ladder {
 			}
 			return []string{"--icsv", "--ojsonl", "cat"}, h.String() + "z\n" + r.String() + "1\n"
 		}},
-		{"csv-many-dup-columns", 10000, func(d int) ([]string, string) { return []string{"--icsv", "--ojsonl", "cat"}, rep("a,", d) + "a\n" + rep("1,", d) + "1\n" }},
-		{"csv-many-quotes", big, func(d int) ([]string, string) { return []string{"--icsv", "--ojsonl", "cat"}, "a\n\"" + rep(`""`, d) + "\"\n" }},
-		{"csv-many-blank-lines", big, func(d int) ([]string, string) { return []string{"--icsv", "--ojsonl", "cat"}, "a\n" + rep("\n", d) + "1\n" }},
-		{"csvlite-many-schema-changes", 100000, func(d int) ([]string, string) { return []string{"--icsvlite", "--ocsvlite", "cat"}, rep("a\n1\n\nb\n2\n\n", d) }},
+		{"csv-many-dup-columns", 10000, func(d int) ([]string, string) {
+			return []string{"--icsv", "--ojsonl", "cat"}, rep("a,", d) + "a\n" + rep("1,", d) + "1\n"
+		}},
+		{"csv-many-quotes", big, func(d int) ([]string, string) {
+			return []string{"--icsv", "--ojsonl", "cat"}, "a\n\"" + rep(`""`, d) + "\"\n"
+		}},
+		{"csv-many-blank-lines", big, func(d int) ([]string, string) {
+			return []string{"--icsv", "--ojsonl", "cat"}, "a\n" + rep("\n", d) + "1\n"
+		}},
+		{"csvlite-many-schema-changes", 100000, func(d int) ([]string, string) {
+			return []string{"--icsvlite", "--ocsvlite", "cat"}, rep("a\n1\n\nb\n2\n\n", d)
+		}},
 		{"csv-ragged-to-csv-unsparsify", 1000, func(d int) ([]string, string) {
 			var sb strings.Builder
 			for i := 0; i < d; i++ {
@@ -365,8 +512,12 @@ func ladders() []ladder {
 			}
 			return []string{"--idkvp", "--ocsv", "unsparsify"}, sb.String()
 		}},
-		{"tsv-long-line", big, func(d int) ([]string, string) { return []string{"--itsv", "--ojsonl", "cat"}, "a\n" + rep("x", d*10) + "\n" }},
-		{"tsv-many-escapes", big, func(d int) ([]string, string) { return []string{"--itsv", "--ojsonl", "cat"}, "a\n" + rep(`\t\n\\`, d) + `\` + "\n" }},
+		{"tsv-long-line", big, func(d int) ([]string, string) {
+			return []string{"--itsv", "--ojsonl", "cat"}, "a\n" + rep("x", d*10) + "\n"
+		}},
+		{"tsv-many-escapes", big, func(d int) ([]string, string) {
+			return []string{"--itsv", "--ojsonl", "cat"}, "a\n" + rep(`\t\n\\`, d) + `\` + "\n"
+		}},
 		{"dkvp-long-line-no-newline", big, func(d int) ([]string, string) { return []string{"--idkvp", "--ojsonl", "cat"}, "a=" + rep("x", d*10) }},
 		{"dkvp-many-fields", 100000, func(d int) ([]string, string) {
 			var sb strings.Builder
@@ -376,7 +527,9 @@ func ladders() []ladder {
 			return []string{"--idkvp", "--ojsonl", "cat"}, sb.String() + "z=0\n"
 		}},
 		{"dkvp-many-positional-fields", 100000, func(d int) ([]string, string) { return []string{"--idkvp", "--ojsonl", "cat"}, rep("v,", d) + "v\n" }},
-		{"dkvp-unflatten-deep", big, func(d int) ([]string, string) { return []string{"--idkvp", "--ojsonl", "cat"}, "a" + rep(".a", d) + "=1\n" }},
+		{"dkvp-unflatten-deep", big, func(d int) ([]string, string) {
+			return []string{"--idkvp", "--ojsonl", "cat"}, "a" + rep(".a", d) + "=1\n"
+		}},
 		{"dkvp-unflatten-dots-only", big, func(d int) ([]string, string) { return []string{"--idkvp", "--ojsonl", "cat"}, rep(".", d) + "=1\n" }},
 		{"dkvp-unflatten-wide-numeric", 100000, func(d int) ([]string, string) {
 			var sb strings.Builder
@@ -386,10 +539,18 @@ func ladders() []ladder {
 			return []string{"--idkvp", "--ojsonl", "cat"}, sb.String() + "z=0\n"
 		}},
 		{"dkvp-many-equals", big, func(d int) ([]string, string) { return []string{"--idkvp", "--ojsonl", "cat"}, rep("=", d) + "\n" }},
-		{"dkvpx-long-quoted", big, func(d int) ([]string, string) { return []string{"-i", "dkvpx", "--ojsonl", "cat"}, `a="` + rep("x", d*10) + "\"\n" }},
-		{"dkvpx-unterminated-quote", big, func(d int) ([]string, string) { return []string{"-i", "dkvpx", "--ojsonl", "cat"}, `a="` + rep("x\n", d*5) }},
-		{"nidx-many-fields", 100000, func(d int) ([]string, string) { return []string{"--inidx", "--ifs", " ", "--ojsonl", "cat"}, rep("v ", d) + "\n" }},
-		{"nidx-many-spaces", big, func(d int) ([]string, string) { return []string{"--inidx", "--ifs", " ", "--ojsonl", "cat"}, "a" + rep(" ", d*10) + "b\n" }},
+		{"dkvpx-long-quoted", big, func(d int) ([]string, string) {
+			return []string{"-i", "dkvpx", "--ojsonl", "cat"}, `a="` + rep("x", d*10) + "\"\n"
+		}},
+		{"dkvpx-unterminated-quote", big, func(d int) ([]string, string) {
+			return []string{"-i", "dkvpx", "--ojsonl", "cat"}, `a="` + rep("x\n", d*5)
+		}},
+		{"nidx-many-fields", 100000, func(d int) ([]string, string) {
+			return []string{"--inidx", "--ifs", " ", "--ojsonl", "cat"}, rep("v ", d) + "\n"
+		}},
+		{"nidx-many-spaces", big, func(d int) ([]string, string) {
+			return []string{"--inidx", "--ifs", " ", "--ojsonl", "cat"}, "a" + rep(" ", d*10) + "b\n"
+		}},
 		{"xtab-long-key", big, func(d int) ([]string, string) { return []string{"--ixtab", "--ojsonl", "cat"}, rep("k", d*10) + " 1\n" }},
 		{"xtab-many-lines", 100000, func(d int) ([]string, string) {
 			var sb strings.Builder
@@ -407,18 +568,38 @@ func ladders() []ladder {
 		{"markdown-many-columns", 10000, func(d int) ([]string, string) {
 			return []string{"--imd", "--ojsonl", "cat"}, "|" + rep(" h |", d) + "\n|" + rep(" --- |", d) + "\n|" + rep(" 1 |", d) + "\n"
 		}},
-		{"dcf-many-continuations", big, func(d int) ([]string, string) { return []string{"--idcf", "--ojsonl", "cat"}, "Description: x\n" + rep(" more\n", d) }},
-		{"recutils-many-continuations", big, func(d int) ([]string, string) { return []string{"--irecutils", "--ojsonl", "cat"}, "a: x\n" + rep("+ more\n", d) }},
-		{"many-blank-records", big, func(d int) ([]string, string) { return []string{"--ixtab", "--ojsonl", "cat"}, rep("\n", d) + "a 1\n" + rep("\n", d) }},
-		{"gz-truncated-stream", 1000, func(d int) ([]string, string) { return []string{"--icsv", "--gzin", "--ojsonl", "cat"}, "\x1f\x8b\x08\x00\x00\x00\x00\x00\x00\x03" + rep("\x00", d) }},
-		{"nul-bytes", big, func(d int) ([]string, string) { return []string{"--icsv", "--ojsonl", "cat"}, "a\n" + rep("\x00", d) + "\n" }},
-		{"invalid-utf8-run", big, func(d int) ([]string, string) { return []string{"--icsv", "--opprint", "--barred", "cat"}, "a\n" + rep("\xff\xc0\x80", d) + "\n" }},
+		{"dcf-many-continuations", big, func(d int) ([]string, string) {
+			return []string{"--idcf", "--ojsonl", "cat"}, "Description: x\n" + rep(" more\n", d)
+		}},
+		{"recutils-many-continuations", big, func(d int) ([]string, string) {
+			return []string{"--irecutils", "--ojsonl", "cat"}, "a: x\n" + rep("+ more\n", d)
+		}},
+		{"many-blank-records", big, func(d int) ([]string, string) {
+			return []string{"--ixtab", "--ojsonl", "cat"}, rep("\n", d) + "a 1\n" + rep("\n", d)
+		}},
+		{"gz-truncated-stream", 1000, func(d int) ([]string, string) {
+			return []string{"--icsv", "--gzin", "--ojsonl", "cat"}, "\x1f\x8b\x08\x00\x00\x00\x00\x00\x00\x03" + rep("\x00", d)
+		}},
+		{"nul-bytes", big, func(d int) ([]string, string) {
+			return []string{"--icsv", "--ojsonl", "cat"}, "a\n" + rep("\x00", d) + "\n"
+		}},
+		{"invalid-utf8-run", big, func(d int) ([]string, string) {
+			return []string{"--icsv", "--opprint", "--barred", "cat"}, "a\n" + rep("\xff\xc0\x80", d) + "\n"
+		}},
 		// ---- verbs fed from a ladder (cheap, and the shapes above reach them)
 		{"nest-explode-wide", 100000, func(d int) ([]string, string) { return []string{"nest", "--ivar", ";", "-f", "x"}, rep("x=a\n", d) }},
-		{"sec2gmt-verb-wide", 10000, func(d int) ([]string, string) { return []string{"--ojson", "sec2gmt", "-9", "t"}, "t=" + rep("9", d) + "\n" }},
-		{"split-join-wide", 100000, func(d int) ([]string, string) { return []string{"--ojson", "put", `$y = joink(splitax($x, ";"), ",")`}, "x=" + rep("a;", d) + "\n" }},
+		{"sec2gmt-verb-wide", 10000, func(d int) ([]string, string) {
+			return []string{"--ojson", "sec2gmt", "-9", "t"}, "t=" + rep("9", d) + "\n"
+		}},
+		{"split-join-wide", 100000, func(d int) ([]string, string) {
+			return []string{"--ojson", "put", `$y = joink(splitax($x, ";"), ",")`}, "x=" + rep("a;", d) + "\n"
+		}},
 	}
-	return L
+	out := make([]ladder, len(L))
+	for i, l := range L {
+		out[i] = ladder{name: l.name, max: l.max, build: l.build}
+	}
+	return out
 }
 
 func ladderDepths(quick bool) []int {
@@ -428,12 +609,6 @@ func ladderDepths(quick bool) []int {
 	return []int{10, 30, 100, 300, 1000, 3000, 10000, 30000, 100000, 300000, 1000000, 3000000, 10000000}
 }
 
-func cpuNow() time.Duration {
-	var ru syscall.Rusage
-	syscall.Getrusage(syscall.RUSAGE_SELF, &ru)
-	return time.Duration(ru.Utime.Nano() + ru.Stime.Nano())
-}
-
 // laddersWorker: one Mine index per shape; depths ascend and the ascent stops
 // (recorded, exhaustive=false) once a depth has cost more CPU or allocation
 // than the tier's budget: the next one would cost 3x..30x more. That is a
@@ -441,13 +616,13 @@ func cpuNow() time.Duration {
 // quiet while the current case has used less than 150 CPU-seconds, so that a
 // slow machine cannot turn a slow case into a "hang".
 func laddersWorker(w *vf.Worker) {
-	x := newRunner(w)
+	x := newRunner(w, 8, 0)
 	var idx uint64
 	ls := ladders()
 	only := envOr("VERIF_C18_LADDER", "")
-	cpuBudget, allocBudget := 400*time.Millisecond, uint64(1<<30)
+	cpuBudget, allocBudget := 400*time.Millisecond, uint64(512<<20)
 	if !w.Quick() {
-		cpuBudget, allocBudget = 4*time.Second, uint64(6<<30)
+		cpuBudget, allocBudget = 2*time.Second, uint64(4<<30)
 	}
 	var caseStart atomic.Int64 // cpu at case start, ns; 0 = idle
 	go func() {
@@ -469,15 +644,36 @@ func laddersWorker(w *vf.Worker) {
 		}
 		w.Begin(idx)
 		depths := ladderDepths(w.Quick())
+		if l.depths != nil {
+			depths = l.depths
+		}
 		if l.name == "yaml-alias-doubling" {
 			depths = []int{2, 4, 6, 8, 10, 12, 14, 16, 18, 20, 22, 24, 26, 28, 30}
 		}
 		reached := 0
+		// In an attribution re-run (the shape killed its worker) start at the rung that was being climbed.
+		rungFile := ""
+		startAt := 0
+		if p := poisonPath(); p != "" {
+			rungFile = p + ".rung." + l.name
+			if w.Only >= 0 {
+				if b, err := os.ReadFile(rungFile); err == nil {
+					fmt.Sscan(string(b), &startAt)
+				}
+			}
+		}
 		for _, d := range depths {
 			if d > l.max {
 				break
 			}
+			if d < startAt {
+				continue
+			}
+			if rungFile != "" && w.Only < 0 {
+				os.WriteFile(rungFile, []byte(fmt.Sprint(d)), 0644)
+			}
 			args, stdin := l.build(d)
+			args, cleanup := spillLongProgram(args)
 			m := &mcase{Fam: "ladder", Cfg: l.name, Size: d, Desc: fmt.Sprintf("depth=%d", d), Args: args, Stdin: stdin, outCap: 1 << 30, regen: true}
 			var ms0, ms1 runtime.MemStats
 			runtime.ReadMemStats(&ms0)
@@ -488,6 +684,7 @@ func laddersWorker(w *vf.Worker) {
 			cpu := cpuNow() - c0
 			runtime.ReadMemStats(&ms1)
 			alloc := ms1.TotalAlloc - ms0.TotalAlloc
+			cleanup()
 			args, stdin, m = nil, "", nil
 			debug.FreeOSMemory()
 			reached = d
@@ -504,19 +701,50 @@ func laddersWorker(w *vf.Worker) {
 				break
 			}
 		}
+		if rungFile != "" && w.Only < 0 {
+			os.Remove(rungFile)
+		}
 		w.AddSet("ladder-reached", fmt.Sprintf("%s:%d", l.name, reached))
 	}
-	// the one deliberately unbounded program: user-level infinite recursion
+	// The one deliberately unbounded program: user-level infinite recursion. It needs minutes of CPU and gigabytes
+	// before the Go stack limit is reached, so it is given to the plain binary only (address space capped at
+	// 4 GiB, cut off after 60 s of CPU time) instead of being run in-process and re-run three times by the pool.
 	if !w.Quick() {
 		idx++
 		if w.Mine(idx) {
 			w.Begin(idx)
 			m := &mcase{Fam: "ladder", Cfg: "dsl-udf-unbounded-recursion", Size: 1, Desc: "func f(n) {return f(n+1)}", Args: []string{"-n", "put", "func f(n) { return f(n+1) } end{print f(1)}"}}
-			caseStart.Store(int64(cpuNow()) | 1)
-			oc := x.run(m)
-			caseStart.Store(0)
-			w.AddSet("ladder-outcomes", "dsl-udf-unbounded-recursion:"+oc.class)
+			stop := make(chan bool)
+			go func() {
+				for {
+					select {
+					case <-stop:
+						return
+					case <-time.After(2 * time.Second):
+						w.Heartbeat()
+					}
+				}
+			}()
+			v := plainVerdict(m, 60*time.Second)
+			close(stop)
+			w.Eval(1)
+			w.Nontrivial(1)
 			w.Count("cases:ladder", 1)
+			kind := ""
+			switch {
+			case strings.HasPrefix(v, "FATAL") && strings.Contains(v, "stack overflow"):
+				kind = "fatal#stack-overflow"
+			case strings.HasPrefix(v, "FATAL"):
+				kind = "fatal#out-of-memory"
+			case strings.HasPrefix(v, "PANIC"):
+				kind = "panic"
+			case strings.HasPrefix(v, "STILL RUNNING"):
+				kind = "hang"
+			}
+			w.AddSet("ladder-outcomes", "dsl-udf-unbounded-recursion:"+firstWord(v))
+			if kind != "" {
+				w.Violation("crash["+kind+"]:"+m.keyTail(), "unbounded user-level recursion: "+m.shell()+" || plain binary: "+v, map[string]any{"args": m.Args, "plain_binary": v})
+			}
 		}
 	}
 	if w.Shard == 0 {
@@ -524,12 +752,42 @@ func laddersWorker(w *vf.Worker) {
 	}
 }
 
+func firstWord(s string) string {
+	if i := strings.IndexByte(s, ' '); i > 0 {
+		return s[:i]
+	}
+	return s
+}
+
 // regenLadder rebuilds the text of a ladder case from its (cfg, size) label.
-func regenLadder(m *mcase) {
+// The caller removes the spilled program file (if any) through the returned function.
+func regenLadder(m *mcase) func() {
 	for _, l := range ladders() {
 		if l.name == m.Cfg {
 			m.Args, m.Stdin = l.build(m.Size)
-			return
+			var cleanup func()
+			m.Args, cleanup = spillLongProgram(m.Args)
+			return cleanup
 		}
 	}
+	return func() {}
+}
+
+// spillLongProgram: a single command-line argument cannot exceed 128 KiB on
+// Linux, so a DSL program beyond 100 kB is given the way a user would have to
+// give it: in a file, through `put -f`.
+func spillLongProgram(args []string) ([]string, func()) {
+	for i, a := range args {
+		if len(a) > 100000 && i > 0 && args[i-1] == "put" {
+			f, err := os.CreateTemp("/dev/shm", "verif-c18-prog-*.mlr")
+			if err != nil {
+				break
+			}
+			f.WriteString(a)
+			f.Close()
+			out := append(append(append([]string{}, args[:i]...), "-f", f.Name()), args[i+1:]...)
+			return out, func() { os.Remove(f.Name()) }
+		}
+	}
+	return args, func() {}
 }
